@@ -746,7 +746,20 @@ func c13Stored(ctx context.Context, st iface.Store) (queue []cid.Cid, total int,
 	}
 	var q []cid.Cid
 	if err := json.Unmarshal(qj, &q); err != nil {
-		return nil, 0, fmt.Errorf("queue json: %w", err)
+		// how the queue is written down is the implementation's business (what counts is what a
+		// reload makes of it): also read a list of CIDs in their string form
+		var qs []string
+		if err2 := json.Unmarshal(qj, &qs); err2 != nil {
+			return nil, 0, fmt.Errorf("queue json: %w", err)
+		}
+		q = nil
+		for _, x := range qs {
+			c, err2 := cid.Decode(x)
+			if err2 != nil {
+				return nil, 0, fmt.Errorf("queue json: %w", err)
+			}
+			q = append(q, c)
+		}
 	}
 	sp, err := st.Cache().Get(ctx, datastore.NewKey("snapshot"))
 	if err != nil {
